@@ -795,24 +795,34 @@ class H2Connection:
             raise RFC1122Error("Servers SHOULD NOT prioritize streams.")
 
         self.state_machine.process_input(ConnectionInputs.SEND_HEADERS)
+        opens_stream = stream_id not in self.streams
+        highest_outbound_stream_id = self.highest_outbound_stream_id
         stream = self._get_or_create_stream(
             stream_id, AllowedStreamIDs(self.config.client_side)
         )
 
-        if priority_present:
-            # This only validates the priority fields.
-            _add_frame_priority(
-                PriorityFrame(stream_id),
-                priority_weight,
-                priority_depends_on,
-                priority_exclusive
-            )
+        try:
+            if priority_present:
+                # This only validates the priority fields.
+                _add_frame_priority(
+                    PriorityFrame(stream_id),
+                    priority_weight,
+                    priority_depends_on,
+                    priority_exclusive
+                )
 
-        # The priority fields take five bytes of the first HEADERS frame.
-        frames = stream.send_headers(
-            headers, self.encoder, end_stream,
-            first_frame_overhead=(5 if priority_present else 0)
-        )
+            # The priority fields take five bytes of the first HEADERS frame.
+            frames = stream.send_headers(
+                headers, self.encoder, end_stream,
+                first_frame_overhead=(5 if priority_present else 0)
+            )
+        except ProtocolError:
+            # Nothing has been sent. If this call was going to open the
+            # stream, the stream does not exist.
+            if opens_stream:
+                del self.streams[stream_id]
+                self.highest_outbound_stream_id = highest_outbound_stream_id
+            raise
 
         if priority_present:
             headers_frame = frames[0]
